@@ -8,6 +8,7 @@ package main
 import (
 	"encoding/hex"
 	"fmt"
+	"hash/crc32"
 	"math"
 	"math/rand"
 	"os"
@@ -21,6 +22,7 @@ import (
 	"sync/atomic"
 	"time"
 
+	"github.com/TarsCloud/TarsGo/tars/protocol/res/endpointf"
 	"github.com/TarsCloud/TarsGo/tars/selector"
 	"github.com/TarsCloud/TarsGo/tars/selector/consistenthash"
 	"github.com/TarsCloud/TarsGo/tars/selector/modhash"
@@ -41,13 +43,61 @@ type epJ struct {
 	Proto   string `json:"proto"`
 	W       int32  `json:"w"`
 	WT      int32  `json:"wt"`
+	// Key: how the endpoint value is built. "" = struct literal with Key = String() (what Parse and
+	// Tars2endpoint produce); "tars" = through endpoint.Tars2endpoint (Proto must be tcp or udp);
+	// "empty" = plain struct literal, Key left empty; "dup" = the same Key on every endpoint;
+	// "other" = a Key unrelated to the host. The selectors identify endpoints by Host only.
+	Key string `json:"key,omitempty"`
 }
 
 func (e epJ) ep() endpoint.Endpoint {
 	r := endpoint.Endpoint{Host: e.Host, Port: e.Port, Timeout: e.Timeout, Proto: e.Proto, Weight: e.W,
 		WeightType: e.WT, Istcp: 1}
-	r.Key = r.String()
+	switch e.Key {
+	case "tars":
+		if e.Proto == "tcp" || e.Proto == "udp" {
+			f := endpointf.EndpointF{Host: e.Host, Port: e.Port, Timeout: e.Timeout, Istcp: 1, Weight: e.W, WeightType: e.WT}
+			if e.Proto == "udp" {
+				f.Istcp = 0
+			}
+			return endpoint.Tars2endpoint(f)
+		}
+		r.Key = r.String()
+	case "empty":
+	case "dup":
+		r.Key = "tcp -h 10.0.0.1 -p 1 -t 0"
+	case "other":
+		// descending where the hosts ascend, and not a function of the String()
+		r.Key = fmt.Sprintf("k%08x", 0xffffffff-crc32.ChecksumIEEE([]byte(e.Host)))
+	default:
+		r.Key = r.String()
+	}
 	return r
+}
+
+var keyModes = []string{"", "", "tars", "empty", "empty", "dup", "other", "mixed"}
+
+// setKeys chooses how the endpoint values of a universe are built
+func setKeys(rng *rand.Rand, u []epJ) {
+	mode := keyModes[rng.Intn(len(keyModes))]
+	for i := range u {
+		m := mode
+		if mode == "mixed" {
+			m = keyModes[rng.Intn(len(keyModes)-1)]
+		}
+		if m == "tars" && u[i].Proto != "tcp" && u[i].Proto != "udp" {
+			u[i].Proto = "tcp"
+		}
+		u[i].Key = m
+	}
+}
+
+func withKeys(u []epJ, mode string) []epJ {
+	out := append([]epJ{}, u...)
+	for i := range out {
+		out[i].Key = mode
+	}
+	return out
 }
 
 func hx(s string) string {
@@ -923,6 +973,7 @@ func universe(rng *rand.Rand, n int, profile string) []epJ {
 			u[i].Port = -int32(rng.Intn(70000))
 		}
 	}
+	setKeys(rng, u)
 	setW := func(f func(i int) int32) {
 		for i := range u {
 			u[i].W = f(i)
@@ -1613,6 +1664,23 @@ func main() {
 			}
 		}
 	}
+	// 2c. equal static weights, endpoint values built in every way (always run): the weighted round
+	// robin must rotate strictly (every window of N selections hits each host once), the tie between
+	// equal running weights being broken by String(), never by a field that may be empty or shared
+	for _, n := range []int{2, 3, 4, 5, 7, 13, 20} {
+		ws := make([]int32, n)
+		for i := range ws {
+			ws[i] = 5
+		}
+		for _, km := range []string{"", "tars", "empty", "dup", "other"} {
+			u := withKeys(fixedEps(ws...), km)
+			cases = append(cases, caseJ{Kind: "bswl", Eps: u, Tag: "equal-keys"})
+			for _, sel := range []string{"rr", "modhash", "random"} {
+				cases = append(cases, caseJ{Kind: "seq", Sel: sel, EW: true, Tag: "equal-keys", Own: "garbage", Ops: []opJ{
+					{K: "R", Eps: u}, {K: "S", Step: 1, Rep: 10*n + n + 1}, {K: "D", Eps: u[:1]}, {K: "S", Step: 1, Rep: 3 * n}}})
+			}
+		}
+	}
 	// 3. random histories, every strategy, weighted and not, every weight profile
 	nseq := 500
 	maxOps := 40
@@ -1657,6 +1725,10 @@ func main() {
 	genExhaustive(ck.check, "modhash", true, uPos, exLen, "exhaustive-pos")
 	genExhaustive(ck.check, "random", true, uBad, exLen-1, "exhaustive-bad")
 	genExhaustive(ck.check, "conhash", true, uBad, exLen-1, "exhaustive-bad")
+	// equal static weights, plain struct values without Key: cycle 10, 10, 10 in strict rotation
+	uEq := withKeys([]epJ{{Host: "a", Port: 1, Proto: "tcp", W: 3, WT: 1}, {Host: "b", Port: 1, Proto: "tcp", W: 3, WT: 1},
+		{Host: "c", Port: 1, Proto: "udp", W: 3, WT: 1}}, "empty")
+	genExhaustive(ck.check, "rr", true, uEq, exLen, "exhaustive-equal-nokey")
 	if hugeWeightsOK {
 		// W*R = 2.1e10 for a and b, 2 147 483 650 for c: expected cycle 10, 10, 1
 		uBig := []epJ{{Host: "a", Port: 1, Proto: "tcp", W: math.MaxInt32, WT: 1}, {Host: "b", Port: 1, Proto: "tcp", W: math.MaxInt32 - 1, WT: 1},
